@@ -137,7 +137,7 @@ enum {
     OP_JSON0, /* core: 0..17 */
     OP_JSON1, OP_JSON2, OP_SET_G1, OP_SET_G2, OP_SET_BAD, OP_SET_UNDEF, OP_SET_UNKW, OP_ALIGN_T1, OP_ALIGN_EMPTY, OP_ALIGN_UNK, OP_ADD_NEW,
     OP_ADD_ALT, OP_ADD_DUP, OP_ADD_ALT_NOBASE, OP_ADD_BADPHONE, OP_ADD_EMPTYWORD, OP_ADD_EMPTYPRON, OP_ADD_NEW_NOUPDATE, OP_ADD_ALT_DUP, OP_LOOKUP,
-    OP_GETCMN0, OP_GETCMN1, OP_SETCMN, OP_REINIT, OP_ADD_MANY, OP_ADD_ONEPHONE, NOPS
+    OP_GETCMN0, OP_GETCMN1, OP_SETCMN, OP_REINIT, OP_ADD_MANY, OP_ADD_ONEPHONE, OP_ADD_WS, NOPS
 };
 static const char *const OPNAME[NOPS] = {
     "start", "procA", "end", "hyp", "segwalk", "alignment", "free",
@@ -145,7 +145,7 @@ static const char *const OPNAME[NOPS] = {
     "json0",
     "json1", "json2", "setG1", "setG2", "setBadSyntax", "setUndefRule", "setUnknownWord", "alignT1", "alignEmpty", "alignUnknown", "addNew",
     "addAlt", "addDup", "addAltNoBase", "addBadPhone", "addEmptyWord", "addEmptyPron", "addNewNoUpdate", "addAltTwice", "lookup",
-    "getcmn0", "getcmn1", "setcmn", "reinit", "addMany", "addOnePhone",
+    "getcmn0", "getcmn1", "setcmn", "reinit", "addMany", "addOnePhone", "addWithWhitespace",
 };
 #define N_PROTO 7
 #define N_CORE 18
@@ -162,7 +162,7 @@ typedef struct {
     int nadded;
 } model_t;
 
-static const char *const LOOKUPS[] = { "go", "forward", "ten", "a(2)", "zed", "go(2)", "zed2", "nobase(2)", "bad", "empt", "<sil>", "xoh" };
+static const char *const LOOKUPS[] = { "go", "forward", "ten", "a(2)", "zed", "go(2)", "zed2", "nobase(2)", "bad", "empt", "<sil>", "xoh", "zws" };
 #define NLOOK (int)(sizeof LOOKUPS / sizeof *LOOKUPS)
 #define NMANY 4200
 static const char *const MANYPRON[8] = { "G OW", "T EH N", "M IY", "F AO R", "S T AA P", "W AH N", "T UW", "Z EH D" };
@@ -279,7 +279,7 @@ apply_op(model_t *m, int op, const char *cd)
     if (m->freed)
         return 1;
     /* configuration belongs between utterances */
-    if (m->st == ST_ACTIVE && ((op >= OP_SET_G1 && op <= OP_ADD_ALT_DUP) || op == OP_ADD_MANY || op == OP_ADD_ONEPHONE))
+    if (m->st == ST_ACTIVE && ((op >= OP_SET_G1 && op <= OP_ADD_ALT_DUP) || op == OP_ADD_MANY || op == OP_ADD_ONEPHONE || op == OP_ADD_WS))
         return 1;
     if (m->st == ST_ACTIVE && op == OP_REINIT)
         return 1;
@@ -432,6 +432,13 @@ apply_op(model_t *m, int op, const char *cd)
         return try_add(m, "", "G OW", 1, 0, cd, OPNAME[op]);
     case OP_ADD_EMPTYPRON:
         return try_add(m, "empt", "", 1, 0, cd, OPNAME[op]);
+    case OP_ADD_WS: {
+        /* decoder.h: "whitespace-separated list of phoneme strings" -- blanks, tabs and line ends around and between them */
+        int r2 = try_add(m, "zws", " \tG  OW \r\n", 1, model_lookup(m, "zws") == NULL, cd, OPNAME[op]);
+        if (r2 == 0 && m->nadded > 0 && strcmp(m->added[m->nadded - 1].word, "zws") == 0)
+            m->added[m->nadded - 1].phones = "G OW"; /* what a lookup must return */
+        return r2;
+    }
     case OP_ADD_ONEPHONE:
         return try_add(m, "xoh", "OW", 1, model_lookup(m, "xoh") == NULL, cd, OPNAME[op]);
     case OP_ADD_MANY: {
@@ -1011,7 +1018,7 @@ main(int argc, char **argv)
     else if (strcmp(set, "dict") == 0) {
         /* dictionary operations plus what is needed to use the words */
         static const int ops[] = { OP_ADD_NEW, OP_ADD_ALT, OP_ADD_DUP, OP_ADD_ALT_NOBASE, OP_ADD_BADPHONE, OP_ADD_EMPTYWORD, OP_ADD_EMPTYPRON, OP_ADD_NEW_NOUPDATE,
-                                   OP_ADD_ALT_DUP, OP_LOOKUP, OP_SET_G2, OP_ALIGN_T1, OP_START, OP_PROC_A, OP_END, OP_REINIT, OP_ADD_MANY, OP_ADD_ONEPHONE };
+                                   OP_ADD_ALT_DUP, OP_LOOKUP, OP_SET_G2, OP_ALIGN_T1, OP_START, OP_PROC_A, OP_END, OP_REINIT, OP_ADD_MANY, OP_ADD_ONEPHONE, OP_ADD_WS };
         SET_N = (int)(sizeof ops / sizeof *ops);
         for (i = 0; i < SET_N; i++)
             SETMAP[i] = ops[i];
